@@ -9,6 +9,7 @@ package main
 
 import (
 	"fmt"
+	"go/types"
 	"os"
 	"sort"
 	"strings"
@@ -86,6 +87,21 @@ func (s *Session) ownObligations(prop string) []*Obligation {
 		}
 		ob := &Obligation{Name: "own/" + n + ":a-container-is-handed-to-a-walker-at-most-once", Fn: n, Kind: "flow", Props: []string{prop}, Backend: "flow", Result: "unsat", Pos: s.posOf(fn.Pos()),
 			Clause: "on every path through the function a container of the line (document, array, element of one) reaches a value walker at most once, and a name walker at most once"}
+		if len(viol) > 0 {
+			ob.Result = "sat"
+			ob.Raw = strings.Join(viol, "\n")
+		}
+		out = append(out, ob)
+	}
+	for _, n := range names {
+		fn := byName[n]
+		stores := 0
+		viol := s.ownFreshCheck(fn, &stores)
+		if stores == 0 {
+			continue
+		}
+		ob := &Obligation{Name: "own/" + n + ":a-stored-array-is-allocated-in-the-iteration-that-stores-it", Fn: n, Kind: "flow", Props: []string{prop}, Backend: "flow", Result: "unsat", Pos: s.posOf(fn.Pos()),
+			Clause: "an array that a loop iteration stores into an output container and whose cells the loop writes is allocated inside that iteration (no buffer re-used across iterations)"}
 		if len(viol) > 0 {
 			ob.Result = "sat"
 			ob.Raw = strings.Join(viol, "\n")
@@ -329,7 +345,11 @@ func (s *Session) ownCheck(fn *ssa.Function, ncalls *int) []string {
 	rep := map[string]bool{}
 	for i, c1 := range calls {
 		for j, c2 := range calls {
-			if c1.class != c2.class || c1.org.key != c2.org.key {
+			if c1.class != c2.class {
+				continue
+			}
+			// the same container, or a container and something inside it (a walker descends into everything below its argument)
+			if c1.org.key != c2.org.key && !(i != j && (ownInside(c1.org.key, c2.org.key) || ownInside(c2.org.key, c1.org.key))) {
 				continue
 			}
 			if i == j && !reach[c1.in.Block()][c1.in.Block()] {
@@ -355,4 +375,161 @@ func ownMethodName(fn *ssa.Function) string {
 		return o.Name()
 	}
 	return fn.Name()
+}
+
+// ownInside: origin `inner` is obtained from origin `outer` (an element, an entry, a lookup of it, at any depth)
+func ownInside(inner, outer string) bool {
+	return strings.Contains(inner, "("+outer+")") || strings.Contains(inner, "("+outer+",")
+}
+
+// ---- fresh-per-iteration: the second half of OWN --------------------------------------------------------------------------
+// An array that a loop iteration stores into an output container (Set of an ordered map, store into an element of another array)
+// and whose cells the loop writes must be allocated inside that iteration: otherwise a later iteration overwrites what an
+// earlier one stored (e.g. a scratch buffer re-used across the facets of a $facet).
+
+// ownCarried, when non-nil, collects the blocks of the phis the traversal went through (a value that reaches a store through
+// the phi of a loop header may come from an earlier iteration of that loop)
+var ownCarried map[*ssa.BasicBlock]bool
+
+func ownAllocSites(v ssa.Value, seen map[ssa.Value]bool, out map[ssa.Instruction]bool) {
+	v = ownStrip(v)
+	if seen[v] {
+		return
+	}
+	seen[v] = true
+	switch x := v.(type) {
+	case *ssa.MakeSlice:
+		out[x] = true
+	case *ssa.Phi:
+		if ownCarried != nil {
+			ownCarried[x.Block()] = true
+		}
+		for _, e := range x.Edges {
+			ownAllocSites(e, seen, out)
+		}
+	case *ssa.Call:
+		if b, ok := x.Common().Value.(*ssa.Builtin); ok && b.Name() == "append" && len(x.Common().Args) > 0 {
+			out[x] = true // append may allocate
+			ownAllocSites(x.Common().Args[0], seen, out)
+		}
+	case *ssa.UnOp:
+		// a local slice variable kept in a cell: every store into that cell
+		if a, ok := x.X.(*ssa.Alloc); ok {
+			for _, r := range *a.Referrers() {
+				if st, ok := r.(*ssa.Store); ok && st.Addr == a {
+					ownAllocSites(st.Val, seen, out)
+				}
+			}
+		}
+	}
+}
+
+func (s *Session) ownFreshCheck(fn *ssa.Function, nstores *int) []string {
+	reach := map[*ssa.BasicBlock]map[*ssa.BasicBlock]bool{}
+	for _, b := range fn.Blocks {
+		r := map[*ssa.BasicBlock]bool{}
+		stack := append([]*ssa.BasicBlock{}, b.Succs...)
+		for len(stack) > 0 {
+			x := stack[len(stack)-1]
+			stack = stack[:len(stack)-1]
+			if r[x] {
+				continue
+			}
+			r[x] = true
+			stack = append(stack, x.Succs...)
+		}
+		reach[b] = r
+	}
+	// natural loops: for every back edge t -> h (h dominates t) the body is h plus every block that reaches t without passing h
+	loopBody := map[*ssa.BasicBlock]map[*ssa.BasicBlock]bool{}
+	for _, t := range fn.Blocks {
+		for _, h := range t.Succs {
+			if !h.Dominates(t) {
+				continue
+			}
+			body := loopBody[h]
+			if body == nil {
+				body = map[*ssa.BasicBlock]bool{h: true}
+				loopBody[h] = body
+			}
+			stack := []*ssa.BasicBlock{t}
+			for len(stack) > 0 {
+				x := stack[len(stack)-1]
+				stack = stack[:len(stack)-1]
+				if body[x] {
+					continue
+				}
+				body[x] = true
+				stack = append(stack, x.Preds...)
+			}
+		}
+	}
+	inLoop := func(h, b *ssa.BasicBlock) bool { return loopBody[h] != nil && loopBody[h][b] }
+	_ = reach
+	isSliceVal := func(v ssa.Value) bool {
+		_, ok := ownStrip(v).Type().Underlying().(*types.Slice)
+		return ok
+	}
+	// all stores into cells of arrays, by allocation site
+	type cellWrite struct {
+		in    ssa.Instruction
+		sites map[ssa.Instruction]bool
+	}
+	var writes []cellWrite
+	for _, b := range fn.Blocks {
+		for _, in := range b.Instrs {
+			if st, ok := in.(*ssa.Store); ok {
+				if ia, ok := st.Addr.(*ssa.IndexAddr); ok {
+					sites := map[ssa.Instruction]bool{}
+					ownAllocSites(ia.X, map[ssa.Value]bool{}, sites)
+					writes = append(writes, cellWrite{in, sites})
+				}
+			}
+		}
+	}
+	var out []string
+	check := func(at ssa.Instruction, v ssa.Value, what string) {
+		if !isSliceVal(v) {
+			return
+		}
+		*nstores++
+		sites := map[ssa.Instruction]bool{}
+		ownCarried = map[*ssa.BasicBlock]bool{}
+		ownAllocSites(v, map[ssa.Value]bool{}, sites)
+		carried := ownCarried
+		ownCarried = nil
+		for _, h := range fn.Blocks {
+			if !inLoop(h, at.Block()) {
+				continue
+			}
+			for site := range sites {
+				if inLoop(h, site.Block()) && !carried[h] {
+					continue
+				}
+				// allocated outside the loop that stores it: harmful if the loop writes its cells
+				for _, w := range writes {
+					if w.sites[site] && inLoop(h, w.in.Block()) {
+						out = append(out, fmt.Sprintf("%s: the array %s at %s is not allocated afresh in every iteration of the loop that stores it (allocation at %s, carried over from an earlier iteration or made before the loop) and the loop writes its cells (%s): a later iteration overwrites what an earlier one stored",
+							shortFnName(fn), what, s.posOf(at.Pos()), s.posOf(site.Pos()), s.posOf(w.in.Pos())))
+						return
+					}
+				}
+			}
+		}
+	}
+	for _, b := range fn.Blocks {
+		for _, in := range b.Instrs {
+			switch x := in.(type) {
+			case ssa.CallInstruction:
+				if cal := x.Common().StaticCallee(); cal != nil && ownMethodName(cal) == "Set" && len(x.Common().Args) >= 3 {
+					check(in, x.Common().Args[2], "stored by Set")
+				}
+			case *ssa.Store:
+				if _, ok := x.Addr.(*ssa.IndexAddr); ok {
+					check(in, x.Val, "stored into an element of another array")
+				}
+			}
+		}
+	}
+	return out
 }
